@@ -2,6 +2,8 @@ package main
 
 import (
 	"bytes"
+	"crypto/sha256"
+	"encoding/base64"
 	"strings"
 	"encoding/binary"
 
@@ -209,6 +211,25 @@ func genC15(r *Rng, tier string) []Case {
 			dec(d, stream, dg+"\n", 16384, pick(), "plain")
 			dec(d, stream, dg[:len(dg)-1], 16384, pick(), "plain")
 			dec(1-d, stream, dg, 16384, pick(), "plain")
+			// round 16: streams in the OTHER draft's layout under this draft's algorithm name and base64 alphabet
+			// (k full records closed by an authenticated empty final record is draft-02 only)
+			if c.n > 0 && c.n%c.rs == 0 {
+				k := c.n / c.rs
+				proof := sha256.Sum256([]byte{0})
+				body := []byte{}
+				for i := k - 1; i >= 0; i-- {
+					rec := payload[i*c.rs : (i+1)*c.rs]
+					body = append(append(append([]byte{}, rec...), proof[:]...), body...)
+					proof = sha256.Sum256(append(append(append([]byte{}, rec...), proof[:]...), 1))
+				}
+				crafted := make([]byte, 8)
+				binary.BigEndian.PutUint64(crafted, uint64(c.rs))
+				crafted = append(crafted, body...)
+				cdg := []string{"mi-sha256-draft2=" + base64.RawURLEncoding.EncodeToString(proof[:]), "mi-sha256-03=" + base64.StdEncoding.EncodeToString(proof[:])}[d]
+				dec(d, crafted, cdg, 16384, pick(), "plain")
+				dec(d, crafted[:len(crafted)-32], cdg, 16384, pick(), "plain")
+				dec(d, crafted, cdg, 16384, []int{c.rs}, "onebyte")
+			}
 			// digest header values with no "=", nothing after it, nothing before it, the bare algorithm name
 			alg := []string{"mi-sha256-draft2", "mi-sha256-03"}[d]
 			for _, v := range []string{alg, alg + "=", "=", "", "=" + dg, alg + "==", strings.ToUpper(alg) + dg[len(alg):], alg[:len(alg)-1], alg + " " + dg[len(alg):], " " + dg, dg + " ", "sha-256" + dg[len(alg):], alg + ";" + dg[len(alg)+1:]} {
